@@ -1,0 +1,15 @@
+//go:build !verif
+
+package lib
+
+import "net"
+
+// Verification seams (see /verif/DESIGN.md). Built without the "verif" tag
+// every function below is an inlinable no-op and the shipped behaviour is
+// unchanged.
+
+// VerifDialer returns a replacement for the TCP dialer, or nil.
+func VerifDialer() func(network, addr string) (net.Conn, error) { return nil }
+
+// VerifListener returns a replacement for the TCP listener factory, or nil.
+func VerifListener() func(network, addr string) (net.Listener, error) { return nil }
